@@ -8,6 +8,10 @@ import (
 
 // ---- atoms: strings known only up to equality and order
 
+// rankBits: atom ranks are unsigned bit-vectors (pure QF_BV is faster than mixing in
+// LIA); 2^16 distinct strings per path are plenty.
+const rankBits = 16
+
 func (it *Interp) rankOf(s Str) *Term {
 	if s.atom != nil {
 		return s.atom
@@ -37,16 +41,16 @@ func (it *Interp) constRank(s string) *Term {
 		}
 	}
 	if s == "" {
-		r := mkIntConst(0)
+		r := mkBV(rankBits, 0)
 		return r
 	}
-	r := mkVar(fmt.Sprintf("rank_%x", s), SInt)
-	ex.solver.Assert(intCmp(">", r, mkIntConst(0)))
+	r := mkVar(fmt.Sprintf("rank_%x", s), rankBits)
+	ex.solver.Assert(bvCmp("bvugt", r, mkBV(rankBits, 0)))
 	for _, c := range ex.atomConsts {
 		if c.s < s {
-			ex.solver.Assert(intCmp("<", c.rank, r))
+			ex.solver.Assert(bvCmp("bvult", c.rank, r))
 		} else {
-			ex.solver.Assert(intCmp("<", r, c.rank))
+			ex.solver.Assert(bvCmp("bvult", r, c.rank))
 		}
 	}
 	ex.atomConsts = append(ex.atomConsts, atomConst{s: s, rank: r, level: ex.solver.level, gen: ex.solver.levelGen[ex.solver.level]})
